@@ -237,6 +237,9 @@ func value(v interface{}, depth int, path map[uintptr]bool) any {
 		hidden := []any{}
 		for i := 0; i < rv.NumField(); i++ {
 			f := rv.Type().Field(i)
+			if f.Tag.Get("verif") == "-" {
+				continue // filler fields of the driver's synthesised struct types
+			}
 			if f.Anonymous && rv.Field(i).Kind() == reflect.Struct {
 				// an embedded struct: its exported fields are promoted
 				if sub, ok := value(rv.Field(i).Interface(), depth+1, path).([]any); ok && len(sub) == 3 {
